@@ -210,7 +210,8 @@ def work_id(unit):
             back = outcome(lambda: einx.id("a c, a d, b c, b d -> (a + b) (c + d)", *parts[1]))
             if back[0] != "value" or not np.array_equal(back[1], X):
                 bad.append(({"kind": "equivariance", "relation": "inversion", "desc": "block assemble"}, f"assembling the four blocks of a split matrix (sizes {a_},{b_},{c_},{d_}) does not give the matrix back", {"concat": "blocks"}))
-            sw = outcome(lambda: einx.id("a c, a d, b c, b d -> (c + d) (a + b)", *parts[1]))
+            # (inputs are paired with the blocks of the output in row-major order: (c,a), (c,b), (d,a), (d,b))
+            sw = outcome(lambda: einx.id("a c, b c, a d, b d -> (c + d) (a + b)", parts[1][0], parts[1][2], parts[1][1], parts[1][3]))
             hist["relations"] += 1; hist["output-permutation"] += 1
             if sw[0] != "value" or not np.array_equal(sw[1], X.T):
                 bad.append(({"kind": "equivariance", "relation": "output-permutation", "desc": "block assemble transposed"}, f"'-> (c + d) (a + b)' is not the transpose of '-> (a + b) (c + d)' (sizes {a_},{b_},{c_},{d_})", {"concat": "blocks"}))
